@@ -1,9 +1,12 @@
 """Implementation side of the C09 correspondence: runs the REAL analyses of the repo under
 test (PYTHONPATH decides which tree) under harness-chosen worklist pop orders.
 
-No file of the repo is edited: `analysis.py` looks its work-set class up through the module
-global name `set`; we bind that name to `Sched`, a subclass of the builtin set whose `pop`
-follows a schedule.  Input (JSON on stdin): {"mode": "run"|"explore", "cases": [case...],
+No file of the repo is edited: `analysis.py` looks its work-list classes up through the
+module global names `set` (forward analysis) and `dict` (backward analysis, an insertion
+ordered dict popped at the front since commit 5a93dfc); we bind them to `Sched` / `SchedDict`,
+subclasses whose `pop` / first iterated key follow a schedule.  Every result carries
+"consulted" = how many pops the harness decided, so a refactor that defeats the injection is
+visible (check.py reports it) instead of silently testing one order.  Input (JSON on stdin): {"mode": "run"|"explore", "cases": [case...],
 "max_states": int}.  A case is
   {"kind": "live"|"ass"|"analyze", "succ": [[..]..], "dsucc": [[..]..], "use": [[..]..],
    "def": [[..]..], "incl": bool, "I": [..], "D0": [..], "M0": [..], "inout": [..],
@@ -95,17 +98,42 @@ class Explorer(Controller):
         return 0
 
 
+def _choose(container_items, frame):
+    items = sorted(container_items, key=lambda b: b.idx)
+    k = Sched.ctl.choose(items, frame)
+    Sched.consulted += 1
+    return items[k]
+
+
 class Sched(set):
+    """Injected for the module-global name `set` of analysis.py (work list of
+    ForwardAnalysis.run, and of BackwardAnalysis.run up to guppylang commit 5a93dfc)."""
     ctl = Controller()
+    consulted = 0
 
     def pop(self):
-        items = sorted(self, key=lambda b: b.idx)
-        k = Sched.ctl.choose(items, sys._getframe(1))
-        self.discard(items[k])
-        return items[k]
+        b = _choose(set.__iter__(self), sys._getframe(1))
+        self.discard(b)
+        return b
+
+
+class SchedDict(dict):
+    """Injected for the module-global name `dict` of analysis.py: since commit 5a93dfc the
+    work list of BackwardAnalysis.run is `dict.fromkeys(bbs)` popped with
+    `next(iter(queue))`.  `dict.fromkeys` on this subclass returns a SchedDict; iterating it
+    FROM THE FRAME OF `run` yields the block chosen by the harness first, so the loop body of
+    the real code is driven through arbitrary visit orders.  Everywhere else it is a dict."""
+
+    def __iter__(self):
+        f = sys._getframe(1)
+        if f.f_code.co_name == "run" and f.f_locals.get("queue") is self and len(self) > 0:
+            first = _choose(dict.__iter__(self), f)
+            return iter([first] + [b for b in dict.__iter__(self) if b is not first])
+        return dict.__iter__(self)
 
 
 an.set = Sched
+an.dict = SchedDict
 
 
 def stmt_for(use, deff):
@@ -179,13 +207,14 @@ def run_case(case, ctl1, ctl2=None):
 
 def do_run(case):
     c1, c2 = ListSched(case.get("sched", [])), ListSched(case.get("sched2", []))
+    Sched.consulted = 0
     try:
         res = run_case(case, c1, c2)
     except Exception as e:  # noqa: BLE001
         return {"error": f"{type(e).__name__}: {e}"}
     finally:
         Sched.ctl = Controller()
-    return {"res": res, "pops": c1.pops, "pops2": c2.pops}
+    return {"res": res, "pops": c1.pops, "pops2": c2.pops, "consulted": Sched.consulted}
 
 
 def do_explore(case, max_states):
